@@ -43,6 +43,17 @@ class _SimpleProcessQueue(multiprocessing.queues.SimpleQueue):
         # Replace Lock by RLock to facilitate batching via greedy `get_many`.
         self._rlock = ctx.RLock()
 
+    def put(self, obj):
+        try:
+            super().put(obj)
+        except Exception as e:
+            if not (isinstance(obj, tuple) and len(obj) == 2):
+                raise
+            # `obj` is `(request ID, value)` and the value can not be pickled
+            # (nothing has been written to the pipe). Fail this request only,
+            # rather than the thread or worker that is passing it on.
+            super().put((obj[0], RemoteException(e)))
+
 
 class _SimpleThreadQueue(queue.SimpleQueue):
     """
